@@ -21,6 +21,9 @@ Not decided: collisions between distinct ASN.1 names after mangling; exact case-
         "weak keywords (union, macro_rules, ...) are legal identifiers and are not required in the table".into(),
     ];
     ctx.rule("table containment against rustc's keyword list; guard/emission pairs of the manglers; identifier-annotation decisions evaluated for equal/different spellings");
+    // "types in title case": the name a hoisted component type is declared under and the name it is referred to by are both
+    // the case rule applied to the ASN.1 identifier — not to an identifier that was already converted (= C01.inner)
+    crate::rules::c01::inner_names(m, ctx, "C16.inner");
 
     // ---------------- keyword table ----------------
     let table = m.consts.iter().filter_map(|c| str_array(&c.expr).map(|v| (c, v))).find(|(_, v)| v.iter().any(|s| s == "fn") && v.iter().any(|s| s == "struct"));
